@@ -171,6 +171,12 @@ def x86_multiply(aprog, variant, square, timeout_ms=60000):
     ident = L.eq(got, want)
     ok = L.prove(ident, "product identity")
     if ok is None:
+        hit = L.wrap_search(lambda env: L.evaluate(got, env) != L.evaluate(want, env), [c[2] for c in X.lost_carries if len(c) > 2], 5000, 120, True)
+        if hit is not None:
+            ce = dict(extra)
+            ce["a"] = hex(sum(hit.get("a%d" % i, 0) << (64 * i) for i in range(6)))
+            ce["b"] = hex(sum(hit.get(("a%d" if square else "b%d") % i, 0) << (64 * i) for i in range(6)))
+            raise Violation(key, "%s: result is not sum a_i*b_j*2^(64(i+j)) (input found by the lost-carry search after the solver gave up)" % sym, ce)
         raise Inconclusive("solver unknown on the product identity of " + sym)
     if not ok:
         ce = dict(extra)
